@@ -148,6 +148,10 @@ class Curve(CellObject):
 
                 parts[cells[ind, :]] = count
 
+            # vertices that lie on no segment are parts of their own
+            isolated = np.setdiff1d(np.arange(parts.shape[0]), cells.flatten())
+            parts[isolated] = count + 1 + np.arange(isolated.shape[0])
+
             self._parts = parts
 
         return self._parts
